@@ -52,6 +52,11 @@ def shortcut_cases():
         "reversed-slice": ["slice", _x, 10, 1, -2], "row": ["row", ["mat", "A"], 1], "column": ["col", ["mat", "A"], 2],
         "diagonal": ["diag", ["mat", "A"]], "sym-row": ["row", ["mat", "G"], 2], "sym-column": ["col", ["mat", "G"], 0],
         "row-of-transpose": ["row", ["T", ["mat", "A"]], 0],
+        # views whose elements differ in an index that is not the last one, taken right-to-left / bottom-to-top
+        "reversed-column": ["cols", ["mat", "A"], 1, None, None, -1], "stepped-reversed-column": ["cols", ["mat", "A"], 2, 2, None, -2],
+        "reversed-row": ["rows", ["mat", "A"], 1, None, None, -1], "sym-row-reversed": ["rows", ["mat", "G"], 2, None, None, -1],
+        "sym-column-reversed": ["cols", ["mat", "G"], 0, None, None, -1], "reversed-row-of-transpose": ["rows", ["T", ["mat", "A"]], 1, None, None, -1],
+        "diag-matrix-row": ["row", ["dmat", ["vec", "y"]], 1], "reversed-diagonal": ["slice", ["diag", ["mat", "A"]], None, None, -1],
     }
     for vn, v in views.items():
         n = len(R.Interp(R.Decls(D1), R.SetAlg()).vnames(v))
@@ -89,6 +94,13 @@ def shortcut_cases():
         out.append((f"symmetric-block:{nm}:sum", D2, ["msum", blk], []))
         out.append((f"symmetric-block:{nm}:fro", D2, ["bin", "+", ["fro", blk], ["var", "s"]], []))
         out.append((f"symmetric-block:{nm}:constraint", D2, ["var", "s"], [["rel", "<=", ["msum", blk], ["raw", 3.0, "float"], "direct"]]))
+    # element bounds that differ from the container's: a binary vector (elements (0, 1), the vector itself unbounded), an integer vector
+    # with odd bounds, rows of diag_matrix (off-diagonal entries pinned to (0, 0))
+    D3 = [{"k": "vec", "name": "b", "n": 4, "dom": "binary"}, {"k": "vec", "name": "k", "n": 3, "dom": "integer", "lb": -2.0, "ub": 7.0}, {"k": "vec", "name": "y", "n": 3, "lb": 0.5}]
+    for nm, v in [("binary-vector", ["vec", "b"]), ("binary-slice", ["slice", ["vec", "b"], 1, 4, None]), ("integer-reversed", ["slice", ["vec", "k"], None, None, -1]),
+                  ("diag-matrix-row", ["row", ["dmat", ["vec", "y"]], 0]), ("diag-matrix-column", ["col", ["dmat", ["vec", "y"]], 2])]:
+        out.append((f"shortcut:element-bounds:{nm}:sum", D3, ["sum", v], [["rel", ">=", ["sum", v], ["raw", 0.5, "float"], "direct"]]))
+        out.append((f"shortcut:element-bounds:{nm}:lc", D3, ["matmul", ["arr", [float(i + 1) for i in range(len(R.Interp(R.Decls(D3), R.SetAlg()).vnames(v)))]], v], []))
     out.append(("shortcut:two-views-same-vector", D1, ["sum", ["slice", _x, 0, 4, None]], [["rel", "<=", ["sum", ["slice", _x, 2, 8, None]], ["raw", 1.0, "float"], "direct"]]))
     out.append(("shortcut:constant-objective", D1, ["const", 1.0, "float"], [["rel", "<=", ["sum", _x], ["raw", 1.0, "float"], "direct"]]))
     out.append(("shortcut:parameter-only-objective", D1 + [{"k": "par", "name": "p", "val": 2.0}], ["bin", "*", ["par", "p"], ["sum", _y]], []))
@@ -135,15 +147,17 @@ def info(tier):
         "name order) and random problems (generated objective + 0-3 generated relations); Problem.variables / n_variables / "
         "get_bounds / domains compared with the recipe-level syntactic set, an independent natural sort and the declarations; "
         "distinct = canonical problem hashes" % len(shortcut_cases()),
-        "required_cells": sorted({c for c, _, _, _ in shortcut_cases()}) + ["name-stress", "random", "deep-objective", "deep-objective-exclusive-vector", "history"],
+        "required_cells": sorted({c for c, _, _, _ in shortcut_cases()}) + ["name-stress", "random", "deep-objective", "deep-objective-exclusive-vector", "history", "shortcut:element-bound-edited"],
         "assumptions": ["'mentioned' = syntactic occurrence in the recipe (x*0 still mentions x)"],
     }
 
 
-def check(rec, cell, decls, obj, cons, sharing=True):
+def check(rec, cell, decls, obj, cons, sharing=True, bound_edits=None):
     import optyx
 
     prob = {"decls": decls, "objective": obj, "sense": "min", "constraints": cons}
+    if bound_edits:
+        prob["bound_edits"] = bound_edits  # bounds assigned on element objects after the model was written
     rec.case({"d": decls, "o": obj, "c": cons})
     show = {"decls": A.render_decls(decls), "objective": A.render(obj), "constraints": [A.render(c) for c in cons]}
     try:
@@ -199,6 +213,7 @@ def check(rec, cell, decls, obj, cons, sharing=True):
         return
     info_ = R.Decls(decls).var_info()
     wantb = [(info_[nm][0], info_[nm][1]) if nm in info_ else (0.0, 0.0) for nm in want]
+    wantb = [tuple(bound_edits[nm]) if bound_edits and nm in bound_edits else t for nm, t in zip(want, wantb)]
     if [tuple(None if v is None else float(v) for v in t) for t in bounds] != [tuple(None if v is None else float(v) for v in t) for t in wantb]:
         bad("bounds-not-the-declared-bounds", got=bounds, want=wantb)
         return
@@ -214,6 +229,14 @@ def run(ctx, rec):
     for i, (cell, decls, obj, cons) in enumerate(shortcut_cases()):
         if ctx.mine(i):
             check(rec, cell, decls, obj, cons)
+            if cell.startswith("shortcut:") and i % 3 == 0:
+                # the same model with the bounds of one of its elements edited afterwards
+                try:
+                    nm = SC.mentioned({"decls": decls, "objective": obj, "constraints": cons})[1 % max(1, len(SC.mentioned({"decls": decls, "objective": obj, "constraints": cons})))]
+                except Exception:
+                    nm = None
+                if nm and not nm.startswith("_diag_"):
+                    check(rec, "shortcut:element-bound-edited", decls, obj, cons, bound_edits={nm: [0.25, 1.5]})
     n = 0
     while n < N_RANDOM[ctx.tier] and not rec.out_of_time():
         n += 1
